@@ -53,8 +53,8 @@ def validate (g : Grammar) (t : Tables) (compl : Bool := true) : String :=
   let cert := computePast g t
   if certOk g t cert then
     -- rank certificate for chains of reductions (hypothesis of `C01_lr_halts`)
-    let rc := LRX.mkXCert g { t := t, rules := #[] }
-    if !LRX.coreRankOk g t rc then
+    let rc := LRX.mkXCert g { t := t, rules := #[] } cert
+    if !LRX.coreRankOk g t cert rc then
       s!"mismatch rank certificate: {LRX.xwfFailure g { t := t, rules := #[] } cert rc} [C01-rank]"
     else if compl then
       match validateCompl g t with
